@@ -7,19 +7,26 @@ statements through `ClauseElement._compile_w_cache(dialect, compiled_cache=cache
 `ddl.compile(dialect=d, schema_translate_map=m)` and the real `_init_ddl`.
 
 Contract.  T(W, m) = the same descriptor built over the world whose tables carry the schemas m.get(schema, schema)
-(only keys of m are replaced), compiled with no map.  For every sequence m1..mk (k <= 3) of maps applied to ONE cache:
+(only keys of m are replaced), compiled with no map; the empty map {} and "no map at all" (no schema_translate_map option,
+written "absent") translate nothing: T(W, {}) = T(W, absent) = W.  For every sequence m1..mk (k <= 4) of maps applied to ONE
+cache (every execution passes its own map to `_compile_w_cache` and to `_init_compiled`, exactly as
+`Connection._execute_clauseelement` does):
   (K1)  rendered_i == T(W, m_i).string                      (SQL text; parameters are untouched by translation)
-  (K2)  the documented InvalidRequestError exactly when the None-key presence of m_i differs from m_1's (the map the
-        cached object was compiled with): None newly present -> always; None dropped -> iff the compiled text holds a
-        placeholder for the None schema
-  (K3)  documented CompileError only for: a schema name containing '[' or ']' (while a map is in effect), or a map
-        target None on a dialect without default_schema_name (unconnected)
+  (K2)  the documented InvalidRequestError exactly when the None-key presence of m_i differs from that of the first
+        NON-EMPTY map of the sequence (the map the cached placeholder-carrying object was compiled with): None newly
+        present -> always; None dropped -> iff the compiled text holds a placeholder for the None schema; never for an
+        empty / absent map
+  (K3)  documented CompileError only for: a schema name containing '[' or ']' (while a non-empty map is in effect), or a
+        map target None on a dialect without default_schema_name (unconnected)
   (K4)  the caller's map object is not modified
   any other exception, or any other text, violates the contract.
 
 Scope: worlds = the fixed schema a/b/sch.c with the schemas of a and b (and c, thorough) drawn from a small alphabet of
 names incl. quoting-needing ones; all total maps of the used schemas into {t1, "T 2"}, single-key partial maps, identity,
-unrelated key, None target; Core / ORM statements and world DDL from the corpus; six dialects.
+unrelated key, None target; 2-3 map sequences over one cache; and every one of these sequences again with the empty map {}
+resp. "absent" inserted at every position (before, between, after: the cache is first populated / later hit by an
+execution that translates nothing), plus the sequences made of {} / absent only; Core / ORM statements and world DDL from
+the corpus; six dialects.
 """
 import hashlib
 import itertools
@@ -81,7 +88,7 @@ def worlds(tier):
 
 
 def maps_for(w, tier):
-    """map sequences (lists of <= 3 maps, as [[key, value], ...] pair lists so that None keys stay JSON-able)"""
+    """map sequences (lists of <= 4 maps; a map is a [[key, value], ...] pair list so that None keys stay JSON-able, [] = the empty map, "absent" = no map)"""
     keys = sorted(set(w), key=lambda k: (k is not None, str(k)))
     total = [list(zip(keys, tv)) for tv in itertools.product(TARGETS, repeat=len(keys))]
     singles = [[(k, "t1")] for k in keys]
@@ -95,14 +102,38 @@ def maps_for(w, tier):
         seqs += [[with_none, without], [without, with_none], [without, with_none, without]]
     if tier != "quick":
         seqs += [[a, b] for a in total[:3] for b in (singles + extra)[:4]]
-    return [[[list(p) for p in m] for m in seq] for seq in seqs]
+    seqs = [[[list(p) for p in m] for m in seq] for seq in seqs]
+    # the maps that translate nothing — {} and "no schema_translate_map option" — as elements of every sequence, in every
+    # position, over the same cache; and on their own
+    out, seen = [], set()
+    neutral_only = [[EMPTY], [ABSENT], [EMPTY, ABSENT], [ABSENT, EMPTY]]
+    inserted = [seq[:p] + [e] + seq[p:] for seq in seqs for e in (EMPTY, ABSENT) for p in range(len(seq) + 1)]
+    for seq in seqs + neutral_only + inserted:
+        k = json.dumps(seq)
+        if k not in seen:
+            seen.add(k)
+            out.append(seq)
+    return out
+
+
+EMPTY = []            # schema_translate_map={}
+ABSENT = "absent"     # no schema_translate_map option at all (None reaches _compile_w_cache)
 
 
 def as_map(pairs):
+    """the map object of one execution: a fresh dict, or None for 'absent'"""
+    if pairs == ABSENT:
+        return None
     return {k: v for k, v in pairs}
 
 
+def opts_for(m):
+    """the execution options of one execution"""
+    return {} if m is None else {"schema_translate_map": m}
+
+
 def translated_world(w, m):
+    m = m or {}
     return tuple(m[s] if s in m else s for s in w)
 
 
@@ -119,7 +150,7 @@ def render_sequence(desc, w, seq, dn, cache_size=50):
     out = []
     for pairs in seq:
         m = as_map(pairs)
-        before = dict(m)
+        before = dict(m or {})
         has_none_ph = None
         try:
             with warnings.catch_warnings():
@@ -127,22 +158,33 @@ def render_sequence(desc, w, seq, dn, cache_size=50):
                 if desc["k"] == "ddl":
                     comp = stmt.compile(dialect=d, schema_translate_map=m)
                     has_none_ph = "__[SCHEMA__none]" in comp.string
-                    text = C.ddl_call(d, comp, {"schema_translate_map": m})
+                    text = C.ddl_call(d, comp, opts_for(m))
                 else:
                     ck = sorted(desc["values"]) if False else []
                     comp, ext, pd, hit = stmt._compile_w_cache(d, compiled_cache=cache, column_keys=ck, schema_translate_map=m)
                     has_none_ph = "__[SCHEMA__none]" in comp.string
-                    text, _ = C.dbapi_call(d, comp, stmt, None, ext, pd, hit, {"schema_translate_map": m})
+                    text, _ = C.dbapi_call(d, comp, stmt, None, ext, pd, hit, opts_for(m))
         except Exception as e:  # noqa: BLE001
             text = _exc(e)
-        mutated = {k: v for k, v in m.items() if k not in before or before[k] != v} or None
+        mutated = {k: v for k, v in (m or {}).items() if k not in before or before[k] != v} or None
         out.append((text, has_none_ph, mutated))
     return out
 
 
+_REF = {}
+
+
 def reference(desc, w, m, dn):
-    d = C.get_dialect(dn)
+    """the same descriptor over the translated world, no map, no cache (memoised per process on the translated world)"""
     tw = translated_world(w, m)
+    k = (json.dumps(desc, sort_keys=True), tw, dn)
+    if k not in _REF:
+        _REF[k] = _reference(desc, tw, dn)
+    return _REF[k]
+
+
+def _reference(desc, tw, dn):
+    d = C.get_dialect(dn)
     try:
         with warnings.catch_warnings():
             warnings.simplefilter("ignore")
@@ -159,10 +201,11 @@ def judge(name, desc, w, seq, dn):
     """contract clauses for one (statement, world, map sequence, dialect); returns (n evaluations, failures, texts)"""
     fails, texts = [], set()
     rendered = render_sequence(desc, w, seq, dn)
-    m1 = as_map(seq[0])
     isddl = desc["k"] == "ddl"
     for i, (pairs, (got, has_none_ph, mutated)) in enumerate(zip(seq, rendered)):
-        m = as_map(pairs)
+        m = as_map(pairs) or {}
+        # the placeholder-carrying compiled object was built at the first execution with a non-empty map
+        m1 = next((as_map(p) for p in seq[:i + 1] if as_map(p)), {})
         inp = dict(statement=name, stmt=desc, world=list(w), maps=seq, step=i, dialect=dn)
 
         def fail(clause, expected, actual):
@@ -177,14 +220,14 @@ def judge(name, desc, w, seq, dn):
             elif got[1] != exp[1] and got[1] not in ("CompileError", "UnsupportedCompilationError", "InvalidRequestError"):
                 fail("K3_exception", exp[1], "%s: %s" % got[1:])
             continue
-        none_now, none_then = None in m, None in (m1 if not isddl else m)
+        none_now, none_then = None in m, bool(m) and None in (m1 if not isddl else m)
         bracket = any(s is not None and ("[" in s or "]" in s) for s in w)
         none_target = any(v is None for k, v in m.items() if k in w)
         if isinstance(got, tuple):
             ok = False
             if got[1] == "InvalidRequestError" and none_now != none_then and (none_now or has_none_ph):
                 ok = True                                            # K2
-            elif got[1] == "CompileError" and (bracket or none_target):
+            elif got[1] == "CompileError" and m and (bracket or none_target):
                 ok = True                                            # K3
             if not ok:
                 fail("K3_exception", exp[:300], "%s: %s" % got[1:])
@@ -195,7 +238,8 @@ def judge(name, desc, w, seq, dn):
         if not none_now and none_then and has_none_ph:
             fail("K2_missing_error", "InvalidRequestError (None key dropped, statement has a None-schema placeholder)", got[:300])
             continue
-        texts.add(hashlib.md5((dn + got).encode()).digest()[:8])
+        if m:
+            texts.add(hashlib.md5((dn + got).encode()).digest()[:8])
         if got != exp:
             fail("K1_text", exp[:600], got[:600])
     return len(seq), fails, texts
@@ -209,50 +253,56 @@ def _cases(tier):
     return out
 
 
+def _units():
+    return [(name, desc, dn) for name, desc in list(STATEMENTS.items()) + list(DDL.items()) for dn in DIALECTS]
+
+
 def _worker(shard, nshards, tier, seed):
+    """one shard = one (statement, dialect) unit over every (world, map sequence) case: the reference renderings of a unit
+    are shared between the cases that translate to the same world"""
     import random
     cases = _cases(tier)
     if seed:
         random.Random(seed).shuffle(cases)
-    out = dict(evals=0, failures=[], texts=set(), ncases=len(cases), samples=[], nworlds=len(worlds(tier)))
-    for i, (w, seq) in enumerate(cases):
-        if i % nshards != shard:
-            continue
-        for name, desc in list(STATEMENTS.items()) + list(DDL.items()):
-            if desc["k"] == "ddl" and len(seq) > 1:
-                continue                                   # DDL is compiled per execution: no shared compiled object
-            for dn in DIALECTS:
-                n, fails, texts = judge(name, desc, w, seq, dn)
-                out["evals"] += n
-                out["failures"] += fails
-                out["texts"].update(texts)
-        if not out["samples"] and len(seq) > 1:
-            r = render_sequence(STATEMENTS["select_join"], w, seq, "postgresql")
-            out["samples"].append(dict(world=list(w), maps=seq, statement="select_join", dialect="postgresql", rendered=[x[0] if isinstance(x[0], str) else list(x[0]) for x in r]))
+    out = dict(evals=0, failures=[], texts=set(), ncases=len(cases), samples=[], nworlds=len(worlds(tier)), neutral=0)
+    name, desc, dn = _units()[shard]
+    _REF.clear()
+    for w, seq in cases:
+        if desc["k"] == "ddl" and len(seq) > 1:
+            continue                                   # DDL is compiled per execution: no shared compiled object
+        n, fails, texts = judge(name, desc, w, seq, dn)
+        out["evals"] += n
+        out["neutral"] += sum(1 for m in seq if not as_map(m))
+        out["failures"] += fails
+        out["texts"].update(texts)
+        if (name, dn) == ("select_join", "postgresql") and len(out["samples"]) < 2 and len(seq) > 2 and EMPTY in seq[:1 + len(out["samples"])]:
+            r = render_sequence(desc, w, seq, dn)
+            out["samples"].append(dict(world=list(w), maps=seq, statement=name, dialect=dn, rendered=[x[0] if isinstance(x[0], str) else list(x[0]) for x in r]))
     out["texts"] = list(out["texts"])
     return out
 
 
 def run(run, tier, seed, args):
-    res = C.shard_run(_worker, 48, (tier, seed))
+    res = C.shard_run(_worker, len(_units()), (tier, seed))
     texts, failures, samples = set(), [], []
-    evals = 0
+    evals = neutral = 0
     for r in res:
         texts.update(r["texts"])
         failures += r["failures"]
         samples += r["samples"]
         evals += r["evals"]
+        neutral += r["neutral"]
     C.report(run, failures, max_new=12)
     run.coverage.update(
         evaluations=evals,
         distinct_nontrivial=len(texts),
         rule="every (world, map sequence) x statement x dialect: the statement is compiled once through _compile_w_cache with the first map and rendered through the real "
              "_init_compiled / _init_ddl for every map of the sequence (one shared cache), and compared with the same descriptor built over the translated schemas; "
-             "evaluations = renderings judged; distinct_nontrivial = distinct (dialect, rendered SQL) that contain a translated schema, counted by hash",
+             "evaluations = renderings judged (%d of them executions with the empty map / without a map inside a sequence); distinct_nontrivial = distinct (dialect, rendered SQL) that contain a translated schema, counted by hash" % neutral,
         samples=samples[:2],
         exhaustive=True,
         scope="%d worlds (schemas of a, b%s from %s) x their map sequences (all total maps into %s, single-key maps, identity, unrelated key, None target, and 2-3 map sequences over one "
-              "cache incl. None key appearing/disappearing) = %d (world, sequence) cases x %d statements %s + %d DDL constructs %s (single maps) x dialects %s"
+              "cache incl. None key appearing/disappearing; each of these also with {} resp. no map inserted at every position of the sequence, and the sequences of {} / no map only) = %d (world, sequence) cases x %d statements %s + %d DDL constructs %s (single maps) x dialects %s"
               % (res[0]["nworlds"], "" if tier == "quick" else ", c", QUICK_NAMES + ["_none", "x]y"] if tier == "quick" else THOROUGH_NAMES, TARGETS, res[0]["ncases"], len(STATEMENTS),
                  sorted(STATEMENTS), len(DDL), sorted(DDL), list(DIALECTS)))
     run.assumptions += [
